@@ -1,6 +1,32 @@
-(** C12 - placeholder until the capacity theorems land. *)
-From Coq Require Import List NArith.
-From BP Require Import Model.VerifyTop.
-Theorem C12_padding_exact : generator_padding 64 1 2 = Some 128%N.
-Proof. reflexivity. Qed.
-Print Assumptions C12_padding_exact.
+(** C12 — proof validity does not depend on generator capacity. *)
+From Coq Require Import List Arith NArith Bool.
+From BP Require Import Base.Field Model.Verifier Model.VerifyTop Model.Prover Model.Gens Proofs.GuardsP Proofs.GensP.
+Import ListNotations.
+Local Close Scope N_scope.
+
+(** zero padding up to the table size contributes nothing: A is the same function of the first bits*m
+    generators for every capacity *)
+Theorem C12_commit_A_capacity_independent : forall (K : Fld), FldOk K -> forall (M : Mod K), ModOk K M ->
+  forall (g : gens K M) aL aR alpha padding,
+  length aL = length aR -> length aL <= length (g_G g) -> length aL <= length (g_Hv g) ->
+  commit_A K M g aL aR alpha padding = vadd M (vadd M (msm aL (g_G g)) (msm aR (g_Hv g))) (msm alpha (g_Gb g)).
+Proof. exact commit_A_capacity_independent. Qed.
+Print Assumptions C12_commit_A_capacity_independent.
+
+(** the padding is exactly what fills the table: 2*bits*(cap - m), defined iff m <= cap (no overflow) *)
+Theorem C12_padding_spec : forall bits m cap pad : N,
+  generator_padding bits m cap = Some pad -> ((m <= cap \/ bits = 0) /\ pad = 2 * bits * cap - 2 * bits * m /\ 2 * bits * cap < 2 ^ 64)%N.
+Proof. exact generator_padding_spec. Qed.
+Print Assumptions C12_padding_spec.
+
+Theorem C12_static_scalars_fill_table : forall (K : Fld) (acc : batch_acc K) bits m cap pad,
+  generator_padding (N.of_nat bits) (N.of_nat m) (N.of_nat cap) = Some pad ->
+  length (a_gi acc) = m * bits -> length (a_hi acc) = m * bits -> m <= cap ->
+  length (fst (final_msm K acc (N.to_nat pad))) = 2 * bits * cap.
+Proof. exact static_length_matches_table. Qed.
+Print Assumptions C12_static_scalars_fill_table.
+
+(** generator (kind, party, index): a smaller request sees a prefix of the same chain *)
+Theorem C12_chain_prefix : forall n n' bs, n <= n' -> split64 n bs = firstn n (split64 n' bs).
+Proof. exact split64_firstn. Qed.
+Print Assumptions C12_chain_prefix.
